@@ -37,6 +37,10 @@ def replay(rec: Dict[str, Any]) -> List[Tuple[str, Dict[str, Any], str]]:
             doc = tbl.fresh(d)
             disc = ""
             try:
+                if d > 0:
+                    # an iterator over the previous document that is abandoned after one match (match(), limit(), a loop that
+                    # breaks) must not leave anything behind in the compiled query
+                    next(iter(path.finditer(tbl.fresh(d - 1))), None)
                 ms = list(path.finditer(doc))
                 obs_parts = [m.parts for m in ms]
                 exp_parts = [loc_to_parts(l) for l in exp_locs]
